@@ -27,8 +27,12 @@ UseOK(T, r, strict) ==
        ELSE "ok"
 RECURSIVE FirstBad(_, _, _, _)
 FirstBad(T, rs, i, strict) == IF i > Len(rs) THEN "ok" ELSE LET x == UseOK(T, rs[i], strict) IN IF x # "ok" THEN x ELSE FirstBad(T, rs, i + 1, strict)
-AfterOK(as) == LET wrong == {i \in 1..Len(as) : as[i].panic} IN
-               IF wrong = {} THEN "ok" ELSE LET i == CHOOSE x \in wrong : TRUE IN "panic-after-rejection:" \o as[i].what \o ":" \o as[i].where
+\* after a rejection: nothing requested afterwards panics, and whatever contains the rejected type is rejected as well
+AfterOK(as) == LET wrong == {i \in 1..Len(as) : as[i].panic}
+                   accepted == {i \in 1..Len(as) : ~as[i].panic /\ as[i].err = "" /\ as[i].what \in {"same", "[]T", "*T"}} IN
+               IF wrong # {} THEN LET i == CHOOSE x \in wrong : TRUE IN "panic-after-rejection:" \o as[i].what \o ":" \o as[i].where
+               ELSE IF accepted # {} THEN LET i == CHOOSE x \in accepted : TRUE IN "accepted-after-rejection:" \o as[i].what
+               ELSE "ok"
 
 JudgeC08(e) ==
   LET cls == Classify(e.T) IN
